@@ -320,6 +320,49 @@ func ruleSeqhash(c *Ctx, prop string) {
 		c.judge(st, "GUARD", "rejects unknown sequenceType", sum.Pos(), "the digest is unreachable for a type other than DNA/RNA/PROTEIN", whyU)
 	}
 	tb := newTB(h)
+	// the type text is cut or indexed at a fixed position before anything was asked about it: an empty (or
+	// shorter) type is a run-time panic there, where the contract is an error
+	if len(h.Params) > 1 {
+		eachInstr(h, func(i ssa.Instruction) {
+			var x ssa.Value
+			var need int64 = -1
+			kOf := func(v ssa.Value) int64 {
+				if k, isK := v.(*ssa.Const); isK && k.Value != nil {
+					return k.Int64()
+				}
+				return -1
+			}
+			switch in := i.(type) {
+			case *ssa.Slice:
+				x = in.X
+				if in.High != nil {
+					need = kOf(in.High)
+				}
+				if in.Low != nil && kOf(in.Low) > need {
+					need = kOf(in.Low)
+				}
+			case *ssa.Index:
+				x = in.X
+				if k := kOf(in.Index); k >= 0 {
+					need = k + 1
+				}
+			case *ssa.Lookup:
+				x = in.X
+				if k := kOf(in.Index); k >= 0 {
+					need = k + 1
+				}
+			}
+			if x != ssa.Value(h.Params[1]) || need < 1 {
+				return
+			}
+			for _, a := range pathCond(tb, h.Blocks[0], i.Block()).atoms() {
+				if strings.Contains(a.Atom.String(), "param[1]") {
+					return
+				}
+			}
+			c.bad("GUARD", "type text read at a fixed position untested", i.Pos(), fmt.Sprintf("the sequenceType is cut or indexed at a fixed position (it needs at least %d characters) on a path where nothing has been asked about it yet: an empty sequenceType makes Hash panic with an index out of range where an unknown type has to be answered with an error", need))
+		})
+	}
 	// error returns well-formed
 	okErr := holds
 	for _, r := range returnsOf(h) {
